@@ -25,7 +25,8 @@ pub fn prop() -> Prop {
          is Ok and equal (PartialEq) to the original, and printing the re-parsed value gives the identical text. \
          Non-trivial: the case has a named fragment or an inline fragment with a type condition; distinct by text+config.",
     )
-    .random("roundtrip", check, |t| if t == Tier::Quick { 60_000 } else { 1_000_000 }, |t| if t == Tier::Quick { 700 } else { 1000 })
+    .random("roundtrip", check, |t| if t == Tier::Quick { 60_000 } else { 1_200_000 }, |t| if t == Tier::Quick { 700 } else { 1000 })
+    .case_timeout(120)
     .assumptions(&[
         "indent prefixes are whitespace-only strings (spaces/tabs), as the property states",
         "generated field sets / mixed texts that apollo does not validate in the first place are skipped (acceptance is C17's subject)",
@@ -272,7 +273,7 @@ pub fn check(bytes: &[u8], ctx: &mut Ctx) -> Outcome {
     let shuffle = c.bytes(8);
     let braced = c.coin();
     let type_pick = c.byte();
-    let case = c17::gen_case(&mut c, true);
+    let case = c17::gen_case_mode(&mut c, c17::Mode::Neutral);
     let schema_text = print_document(&case.schema_doc);
     let doc_text = print_document(&case.doc);
     let key_cfg = format!("{:?}", cfg);
